@@ -299,7 +299,18 @@ def shard(ctx):
 
 def wigm_pair(ctx, rng):
     "the parametric wigm rule configured with the PRF reference parameters yields the PRF reference history"
-    s = gen.pick(rng, WEIGHTS, False)
+    k = rng.random()
+    s = None
+    if k < 0.25:
+        s = gen.g3b_exact_hit(rng, 4, 'eps')        # a transfer landing exactly on / beside the quota of the reference arithmetic
+        ctx.count('wigm_p4_pairs_on_an_exact_hit')
+    elif k < 0.4:
+        e = stream.catalogue_pick(rng, dict(rule=rng.choice(['wigm-prf', 'wigm'])))
+        if e is not None:
+            s = e[0]
+            ctx.count('wigm_p4_pairs_from_the_boundary_catalogue')
+    if s is None:
+        s = gen.pick(rng, WEIGHTS, False)
     blt = gen.render(s)
     r1 = do_count(blt, dict(rule='wigm', arithmetic='fixed', precision=4), budget=stream.budget_for(ctx), render=True)
     r2 = do_count(blt, dict(rule='wigm-prf'), budget=stream.budget_for(ctx), render=True)
